@@ -146,7 +146,7 @@ def run_check(mod, tier, update_expected=False, only=None, keep=False, verbose=F
                 if inv.get(k, 0) < v:
                     undecided.append('%s: inventory shrank: %s %d < %d' % (j.name, k, inv.get(k, 0), v))
         for w in r['warnings']:
-            if re.search(r'ignoring|no candidates|does not have a contract', w) and not getattr(j, 'allow_warn', None):
+            if re.search(r'ignoring|no candidates', w) and not getattr(j, 'allow_warn', None):
                 ok_models = getattr(mod, 'ALLOWED_WARNINGS', [])
                 if not any(re.search(a, w) for a in ok_models):
                     undecided.append('%s: tool warning: %s' % (j.name, w))
